@@ -664,6 +664,9 @@ func confirmViolation(self, id, tier string, seed int64, units []Unit, v Violati
 	idx := -1
 	for i, u := range units {
 		if u.Name == unit {
+			if idx >= 0 {
+				return false, fmt.Sprintf("two units are called %q: the harness can not tell which one to re-run", unit)
+			}
 			idx = i
 		}
 	}
